@@ -64,6 +64,16 @@ def pushdown_predicates(expression: E, dialect: DialectType = None) -> E:
                             pushdown_allowed = False
                             break
 
+                # a full join null-extends every source at or to the left of it, so a WHERE
+                # predicate on one of those can't be evaluated before the join happens
+                full_join = max((i for i, j in enumerate(joins) if j.side == "FULL"), default=-1)
+                if full_join >= 0:
+                    selected_sources = {
+                        k: v
+                        for k, v in selected_sources.items()
+                        if join_index.get(k, -1) > full_join
+                    }
+
                 if pushdown_allowed:
                     pushdown(where.this, selected_sources, scope_ref_count, dialect, join_index)
 
